@@ -276,7 +276,7 @@ def _longseq(L, A, k):
 
 def run_sweep_di(rec, tier, seed):
     from tangermeme import ersatz as E
-    lens = list(range(2, 301)) + ([1000] if tier == "quick" else [1000, 40000])
+    lens = list(range(2, 301)) + ([1000, 70003] if tier == "quick" else [1000, 40000, 70003, (1 << 20) + 7])
     for L in lens:
         A = 4 if L % 3 else 3
         B = 2 if L <= 300 else 1
@@ -349,7 +349,7 @@ def run_sweep_di(rec, tier, seed):
 
 def run_sweep_mono(rec, tier, seed):
     from tangermeme import ersatz as E
-    lens = list(range(1, 301)) + [1000, 40000]
+    lens = list(range(1, 301)) + [1000, 40000, 70001, (1 << 20) + 5]
     for L in lens:
         A = 4 if L % 2 else 5
         codes = numpy.stack([_longseq(L, A, k) for k in range(2)])
